@@ -6,6 +6,7 @@ import (
 	"math/rand"
 	"net"
 	"strings"
+	"sync"
 	"sync/atomic"
 	"time"
 
@@ -361,6 +362,58 @@ func c09Run(c *vk.Ctx) {
 				if !ok {
 					break
 				}
+			}
+		}
+		// concurrent pass: many clients authenticate at the same moment on one listener, with its
+		// own keys and with foreign ones; the outcome of every exchange is the same as alone
+		if ok {
+			for _, ep := range eps {
+				if ep.Type != "tcp" || !ok {
+					continue
+				}
+				var wg sync.WaitGroup
+				var bad atomic.Value
+				var done atomic.Int64
+				for w := 0; w < 12; w++ {
+					wg.Add(1)
+					wr := c.SubRng("c09conc", ci*1000+w)
+					go func(w int) {
+						defer wg.Done()
+						for i := 0; i < c.N(12, 40) && bad.Load() == nil; i++ {
+							k := keys[wr.Intn(len(keys))]
+							if wr.Intn(3) > 0 {
+								k = ep.Keys[wr.Intn(len(ep.Keys))]
+							}
+							_, owned := firstIDFor(ep.Keys, k)
+							caseN := nextID(c.Batch)
+							ip := caseIP4(caseN & 0xffffff)
+							pp.hub.On(ip.String(), echoTCP)
+							src := net.IPv4(198, 51, 100, byte(10+w))
+							if a, _ := net.ResolveTCPAddr("tcp", DialAddr(ep.Addr)); a == nil || a.IP.To4() == nil {
+								src = net.ParseIP(fmt.Sprintf("2001:db8:c9::%x", 0x10+w))
+							}
+							payload := putU64(caseN)
+							reply, _, err := tcpExchange(DialAddr(ep.Addr), src, k, randBytes(wr, k.Codec().C.SaltSize), ip, pp.hub.Port, payload, 20*time.Second)
+							pp.hub.Off(ip.String())
+							echoed := err == nil && bytes.Equal(reply, payload)
+							if echoed != owned {
+								bad.CompareAndSwap(nil, map[string]any{"listener": ep, "key": k, "echoed": echoed, "owned": owned, "err": fmt.Sprint(err), "phase": "12 clients authenticating concurrently on this listener"})
+							}
+							done.Add(1)
+						}
+					}(w)
+				}
+				wg.Wait()
+				c.Eval("tcp|concurrent-pass")
+				if v := bad.Load(); v != nil {
+					if v.(map[string]any)["owned"].(bool) {
+						c.Violation("C09/key-rejected-on-its-own-listener", v)
+					} else {
+						c.Violation("C09/key-accepted-on-foreign-listener", v)
+					}
+					ok = false
+				}
+				c.Count("concurrent_exchanges_checked", done.Load())
 			}
 		}
 		if pp.fenceC != nil {
